@@ -165,10 +165,16 @@ def gen_dataset(rng, target="binary", n=None, kinds=None, with_dev=None):
             out.append(rng.choices(classes[:k], w)[0])
         return out
 
+    # a qualitative column of strings may be held in a pandas `category` dtype column (same values, another container)
+    as_category = {k for k, v in cols.items() if gens[k][0] in ("ord", "cat") and all(x is None or isinstance(x, str) for x in v)
+                   and rng.random() < 0.08}
+
     def frame(cols_):
         idx = _index(rng, len(next(iter(cols_.values()))))
         X = pd.DataFrame({k: pd.Series(v, dtype=object if gens[k][0] in ("ord", "cat") else ("float32" if gens[k][1] in ("float32", "float32i") else None))
                           for k, v in cols_.items()})
+        for k in as_category:
+            X[k] = X[k].astype("category")
         X.index = idx
         return X
 
